@@ -19,3 +19,15 @@ package ip4defrag
 //@   props C13
 //@   ensures result == ((ip.Flags >> 1) & 1 != 0 || (ip.Flags & 1 == 0 && ip.FragOffset == 0))
 //@   modifies nothing
+
+// Fragment accounting uses the fragment's own header length (IHL*4), not a fixed 20 bytes: a fragment adds its
+// payload length to Current (a duplicate adds nothing).
+//@ func (f *fragmentList) insert(in *layers.IPv4, t time.Time) (*layers.IPv4, error)
+//@   props C13
+//@   ensures result0 == nil && result1 == nil ==> f.Current == old(f.Current) || f.Current == wrap16(old(f.Current) + in.Length - in.IHL * 4)
+
+// The rebuilt datagram has its fragmentation fields cleared and a total length of header plus reassembled payload.
+//@ func (f *fragmentList) build(in *layers.IPv4) (*layers.IPv4, error)
+//@   props C13
+//@   ensures result0 != nil ==> result0.Flags == 0 && result0.FragOffset == 0 && result0.IHL == in.IHL
+//@   ensures result0 != nil ==> result0.Length == wrap16(in.IHL * 4 + f.Highest)
